@@ -19,7 +19,7 @@ claim("C08", "proof",
       "l=1..12 (each l<=10 returns its own table with (theta,phi) in order, l>10 delegates, nothing falls through); the "
       "delegated call is checked against the library's argument convention through the import and its fallback wrapper; the "
       "imported API must exist or be guarded with a fallback. The consequences named in the property (sum rule, conjugation "
-      "symmetry) follow from equality with the definition.",
+      "symmetry) follow from equality with the definition. Also: The dispatcher is specialised to each degree (constant module-level lookup tables are read through), the delegated call may be one vectorised call over np.arange(-l, l+1), and the azimuth handed to the library is decided arm by arm (phi + 2 pi k passes; a reflection or a shift by pi is refuted with the phase each order picks up).",
       "Trusted: the definition of Y_lm coded in pmsa/checks/c08.py, sympy exact arithmetic, the documented argument order of "
       "scipy.special.sph_harm / sph_harm_y (signature table); for l > 10 scipy's numerical values are trusted, only the call "
       "convention is decided. cmath/numpy elementary functions are read as the mathematical functions.",
@@ -55,7 +55,7 @@ claim("C18", "other",
       "writes; (iv) each of the 64 np.save/np.savetxt/to_csv sites has path and data in the right slots, a file requested "
       "through the function's own path parameter holds an object the call returns, and that object is not modified between "
       "save and return. Not decided: bit-identity of library results, dependence of methods on attributes set by earlier "
-      "methods (by design).",
+      "methods (by design). Also: R-STATE: a method that reuses an instance attribute as a cached value must store there exactly what the non-cached arm computes; memoising decorators on routines that read files are refuted; a file named <output>+suffix whose content is returned rescaled by constants is refuted.",
       "Assumptions (also written to the evidence): third-party calls return fresh objects and do not mutate their arguments "
       "except for the tabled view-returning / mutating functions in pmsa/effects.py; advanced (boolean / integer-array) "
       "indexing on a read yields a copy, basic indexing a view; names annotated int/float/str/bool are immutable scalars. "
@@ -74,7 +74,7 @@ claim("C16", "other",
       "is (x_i + sum over listed neighbours of the *input*)/(1+cn_i) per frame with one open handle; time_average uses the "
       "slice [n:n+w], mean over axis 0, and a middle index that is the central frame for every w=1..8, n=0..6; the "
       "window-length truncation rule reports int(float quotient) (known finding G16). Not decided: minimum-image distances on "
-      "data, numpy broadcasting semantics.",
+      "data, numpy broadcasting semantics. Also: A window length that differs from floor(period/interval) at a quotient well inside (k, k+1) is a violation of its own (key window-length:not-floor), separate from the known float-truncation finding G16.",
       "Trusted: numpy linspace/mean/sum semantics; idiom tables in pmsa/checks/c16.py (forms outside them give ANALYSIS-ERROR). "
       "The R-TRUNC finding is listed in known_findings.json and printed as KNOWN-FINDING.",
       "polynomial identity on the extracted index expression with finite witness search (R-LINEAR), value-graph formula and "
@@ -105,7 +105,7 @@ claim("C02", "other",
       "integer combination of the periodic cell vectors, non-periodic fractional components are untouched and periodic ones "
       "are nearest-rounded into [-1/2, 1/2]. All 27 call sites are checked for (displacement, cell of a snapshot that supplied "
       "a position, caller's mask). Not decided: behaviour at exact half-cell ties, idempotence and shortest-image on actual "
-      "floats (consequences of the form in exact arithmetic), np.linalg.inv accuracy.",
+      "floats (consequences of the form in exact arithmetic), np.linalg.inv accuracy. Also: Several returns (fast paths) are folded into one conditional value and refuted with a concrete cell when an arm differs; transposed (column-vector) forms are covered by the algebra (transposes pushed to the leaves); the result may not read module-level state refreshed on an identity test of the argument.",
       "Trusted: numpy dot/inv/rint semantics; the frame-typing and algebra grammars in pmsa/checks/c02.py (other forms give "
       "ANALYSIS-ERROR). When the identity fails the extracted term - not the repository function - is evaluated on concrete "
       "small matrices solely to print a witness.",
@@ -124,7 +124,7 @@ claim("C01", "other",
       "from columns 3..2+ndim counted from the front (extra trailing columns ignored); every (cell, style) has an atom branch "
       "(found G3); wrappers append in read order, count once per frame, stop on the sentinel, one handle; every DumpFileType "
       "member is mapped and receives exactly its parameters. Not decided: float()/int() parsing of numerals, malformed files, "
-      "excursions larger than one box length.",
+      "excursions larger than one box length. Also: A wrap applied under a run-time test is additionally decided by evaluating the extracted test on concrete one-atom frames in which exactly one coordinate lies outside its own axis range; vectorised scaled->Cartesian maps (matrix products) are resolved entry by entry; readers carry no result cache keyed on the file name.",
       "Trusted: str.split / float / int semantics, numpy zeros/vstack/diag/where semantics as modelled in pmsa/arr.py; the "
       "LAMMPS conventions transcribed in pmsa/checks/readerlib.py (reference_cell).",
       "per-configuration abstract interpretation with small-array resolution; exact algebraic comparison of resolved fields "
@@ -140,7 +140,7 @@ claim("C14", "other",
       "part of the sum over particles (and components) or the per-particle trace of the matrix product; the series is divided "
       "by its lag-zero value; t = (timestep - first) dt; the CSV is the returned frame. The spacing test itself is decided by "
       "evaluating the extracted condition on 9 timestep sequences (evenly spaced, unevenly spaced incl. symmetric patterns). "
-      "Not decided: floating-point summation order.",
+      "Not decided: floating-point summation order. Also: Arms written without loops (dot / tensordot / einsum / broadcast sums) are decided exactly, as polynomial identities, on arrays of distinct symbolic complex entries of shape T=3, N=2(, d=2(, d=2)).",
       "Trusted: numpy sum/conj/trace/matmul semantics; idiom table of product forms in pmsa/checks/c14.py (other forms give "
       "ANALYSIS-ERROR). The spacing predicate is decided on a finite list of timestep sequences, not for all sequences.",
       "branch folding + statement parsing into (factor, factor, reduction) with frame-index / conjugation / slot rules "
@@ -195,7 +195,7 @@ claim("C05", "other",
       "min(cn, Nmax), columns [1, 1+c) from tokens [2, 2+c), -1 only for neighbour lists, zeros allocation (padding), trim to "
       "max_cn + 1 columns when below Nmax, integer cast only for lists; (vi) all 12 read_neighbors call sites open the file once "
       "outside the frame loop and read once per frame in order. Not decided: tie-breaking of argsort/argpartition, symmetry of the "
-      "cutoff relation (follows from symmetric distances), str()/int() parsing of numerals.",
+      "cutoff relation (follows from symmetric distances), str()/int() parsing of numerals. Also: The type-pair cutoff table, when built by fancy indexing instead of loops, is decided exactly on a 3 x 3 table of distinct symbols and five typed particles. An argpartition pivot must be a valid index of the smallest admissible distance array (found G18).",
       "Trusted: numpy argpartition/argsort/boolean-mask semantics as documented; the idiom tables of pmsa/checks/c05.py (selection "
       "and text forms outside them are ANALYSIS-ERROR). Concrete evaluation of the extracted selection term on small distance "
       "arrays is used only to print a witness for an already failed structural obligation. remove_pbc itself is decided under C02.",
@@ -216,7 +216,7 @@ claim("C13", "other",
       "q = n x 2 pi/L per axis, |q| row norm; F = sum_i [A_i] exp(-i q.r_i) over the (selected) particles with A_i and r_i of "
       "the same particle, divided by sqrt(N_sel) / sqrt(N) before the modulus; S = Re(F conj F) (summed over components for "
       "vectors); FFT column = F; values rounded before the average over equal |q|. A=1 -> totals and vector = sum over "
-      "components follow from these forms in exact arithmetic. Not decided: numerical agreement on data, np.histogram semantics.",
+      "components follow from these forms in exact arithmetic. Not decided: numerical agreement on data, np.histogram semantics. Also: Pair distances computed from pre-scaled coordinates (solve / products with the cell hoisted out of the pair loop) are lifted back to differences of positions and decided like an inline minimum image.",
       "Trusted: numpy histogram/trace/matmul semantics; idiom tables of pmsa/checks/c13.py. remove_pbc is decided under C02; the "
       "partial columns of gr.* / sq.* under C03 / C04.",
       "per-kind abstract interpretation with folded dispatch tests (R-DISPATCH); factor/conjugation/reduction parsing of weight "
@@ -240,7 +240,7 @@ claim("C19", "other",
       "box[:ndim], diag cell, position[:, :ndim], nsnapshots = len, dimension guard; DCD positions[i][:, :ndim] installed into "
       "frame i by dataclasses.replace (no store to the frozen record). Log: sections start at `Step ` lines, rows = line of "
       "`Loop time of ` - start - 1, every section read and returned in order. Not decided: pandas/gsd/mdtraj behaviour, number "
-      "formatting/parsing round trip of the floats (6 decimals), logs whose thermo lines contain the marker strings.",
+      "formatting/parsing round trip of the floats (6 decimals), logs whose thermo lines contain the marker strings. Also: The frame loops of the centre-type and column wrappers obey the same append/count/sentinel/handle rules as C01 (a frame object must not become falsy when empty); a test that skips a log section is evaluated as a function of end - start and must not skip sections holding a thermo line; integer casts of the HOOMD type ids are value-preserving.",
       "Trusted: str.split/int/float, pandas read_csv(skiprows, nrows) semantics, dataclasses.replace; ReaderRun line numbering "
       "(every readline a distinct line) shared with C01.",
       "line-template reconstruction of the writers + per-configuration abstract interpretation of the readers, compared token by "
@@ -297,7 +297,7 @@ claim("C15", "other",
       "rounded before the per-|q| average of (Sq, Sq_T, Sq_L), CSV = returned average, no in-place operation on DataFrame "
       ".values; correlation variant: frame n decomposed with the field of frame n, each of FFT / T_FFT / L_FFT time-correlated "
       "per wave vector over the frames in order. Bounds [1/N, 1] and [-1, 1] follow from the forms (Cauchy-Schwarz) and are not "
-      "evaluated. Not decided: numerical values, pandas join/groupby semantics.",
+      "evaluated. Not decided: numerical values, pandas join/groupby semantics. Also: Inline re-implementations of the minimum image (row- or column-vector form) are decided with the frame typing and transposed algebra shared with C02; the projection direction must come from the physical wave vectors, not the integer triple.",
       "Trusted: conditional_sq (C13), time_correlation (C14), remove_pbc (C02), read_neighbors (C05); numpy cross/dot semantics; "
       "idiom tables of pmsa/checks/c15.py.",
       "exact algebra with uninterpreted reductions (R-ALG), neighbour-slice and gather alignment rules (R-IDX, R-ALIGN), call-site "
@@ -315,7 +315,7 @@ claim("C17", "other",
       "Nematic (d=2): all four entries of Q = (d u u^T - I)/2, kronecker = [i==j], neighbour average exactly when a list is given, "
       "scalar sqrt(d/(d-1) tr(QQ)) or 2 lambda_max. Gyration (2D, 3D): coordinates centred out of place, all entries of "
       "S_mn = sum p_m p_n / N assigned, eigenvalues sorted ascending, Rg, asphericity, acylindricity, relative shape anisotropy "
-      "and fractal dimension as exact identities in the eigenvalues. Not decided: values on perfect lattices, eig/eigh accuracy.",
+      "and fractal dimension as exact identities in the eigenvalues. Not decided: values on perfect lattices, eig/eigh accuracy. Also: An argpartition pivot must be a valid index of the smallest admissible distance array (five particles for the tetrahedral order: found G17).",
       "Trusted: grid_gaussian and spatial_average (C16), remove_pbc (C02), numpy argpartition/delete/trace/eig semantics; idiom "
       "tables of pmsa/checks/c17.py; selection-pipeline interpreter shared with C05.",
       "exact algebra of closed forms (R-ALG), selection-pipeline interpretation (R-SELECTK), finite enumeration of constant index "
@@ -336,7 +336,7 @@ claim("C20", "other",
       "difference stored in column ndim*i+j of the other particles' rows, self block = - sum of the row's blocks written after "
       "the off-diagonal loop (rows sum to zero), rows divided by the unperturbed volumes afterwards, A^T (A A^T)^-1 A, file = "
       "returned matrix with (path, array) argument order. NOT decided - the core of the property: symmetry of the neighbour "
-      "relation, positivity and reciprocity of weights, volume sum = box volume (properties of freud's tessellation on data).",
+      "relation, positivity and reciprocity of weights, volume sum = box volume (properties of freud's tessellation on data). Also: The tessellation box appended for a frame must be built from that frame's own box lengths on every path; a box carried over from an earlier iteration and refreshed only against a loop-invariant reference is refuted (cells L0, L1, L0).",
       "Trusted: freud's Voronoi (nlist sorted by centre id, weights aligned with bonds), the neighbour-file reader (C05), numpy "
       "semantics; text idiom tables shared with C05.",
       "writer line templates vs the neighbour-file protocol (R-PROTO), cursor/id/frame index rules (R-IDX), typestate of file "
@@ -356,7 +356,7 @@ claim("C07", "other",
       "indexed by the particle loop variable itself (id relabelling permutes the output). NOT decided and not claimed: rotation "
       "invariance of q_l / w-hat_l / |psi_l| / tetrahedral order / shape descriptors / participation ratio, axis-permutation and "
       "dilation invariance, species-swap column exchange as numbers, floating-point accuracy - theorems about the computed "
-      "functions, not shapes of the code; the forms they rest on are decided under C03, C04, C08-C10, C17.",
+      "functions, not shapes of the code; the forms they rest on are decided under C03, C04, C08-C10, C17. Also: Differences of linearly transformed coordinates are lifted to transformed differences before classification; an inline minimum image is judged only on its outermost pure-coordinate expression.",
       "Trusted: remove_pbc's form (C02) and the per-routine argument roles (C03, C05, C06, C09, C10, C13, C15, C16, C17); the "
       "tabled exceptions in pmsa/checks/c07.py (each with its reason); values flowing only through locals that are never "
       "stored/returned are not coordinate outputs.",
